@@ -67,7 +67,9 @@ BoundClass(s, maxdeg, keys, p) ==
   ELSE CASE s \in {"marlin", "sonic"} ->
               IF keys.nobounds \/ d \notin B \/ d < DegOf(p) \/ d > EffMax(s, maxdeg)
               THEN "refuse" ELSE "ok"
-         [] s = "ipa" -> IF d < DegOf(p) \/ d > EffSup(s, keys) THEN "refuse" ELSE "ok"
+         \* (IPA pads the requested supported degree to 2^k - 1 and works up to there; what a key does between the
+         \*  degree it was REQUESTED for and the padded one is not something the properties fix: "any")
+         [] s = "ipa" -> IF d < DegOf(p) \/ d > EffSup(s, keys) THEN "refuse" ELSE IF d > keys.sup THEN "any" ELSE "ok"
          [] OTHER -> "any"      \* schemes without degree-bound support ignore the attribute
 
 HidingClass(s, keys, p, rng) ==
@@ -84,7 +86,8 @@ HidingClass(s, keys, p, rng) ==
          [] OTHER -> "any"
 
 SizeClass(s, nv, keys, p) ==
-  CASE Family(s) = "uni" /\ ~LinCode(s) -> IF DegOf(p) > EffSup(s, keys) THEN "refuse" ELSE "ok"
+  CASE Family(s) = "uni" /\ ~LinCode(s) -> IF DegOf(p) > EffSup(s, keys) THEN "refuse"
+                                           ELSE IF DegOf(p) > keys.sup THEN "any" ELSE "ok"
     [] s = "pst13" -> IF DegOf(p) > keys.sup THEN "refuse" ELSE "ok"
     [] s = "ligero_uni" -> IF p.cls = "zero" /\ LigeroZeroPolyPanics THEN "panics" ELSE "ok"
     [] s = "hyrax" -> IF p.cls = "nv" /\ p.deg # nv THEN "refuse" ELSE "ok"
